@@ -1443,3 +1443,88 @@ Proof.
 Qed.
 
 End Fib.
+
+(* ================================================================ *)
+(* Witnesses: the behaviour before the fix commits (variant Legacy) violates the
+   statements; replayed on the unfixed code through the harness these were the
+   findings C20-1 and C20-2 (corpus/C20/).  And non-vacuity examples. *)
+Definition ex_attr (pref : N) (rts : list N) : attr :=
+  {| a_pref := pref; a_llgrc := false; a_nollgr := false; a_rts := rts |}.
+Definition ex_cfg : cfg :=
+  {| c_peers := [(1, (1, false)); (2, (2, false)); (3, (3, false))];
+     c_attrs := [(0, ex_attr 1 [1]); (1, ex_attr 0 [2]); (2, ex_attr 1 [1])];
+     c_vrfs := [(5, [1]); (6, [2])];
+     c_pols := [[(1, AReject)]; [(2, ASetNh 3)]] |}.
+
+(* C20-1: a path tied with the best is added: best_changed is false, no request *)
+Definition ex_ops_tied : list op :=
+  [Insert 1 0 (0, 1) 0 (Some 1) 0; Insert 2 0 (0, 1) 0 (Some 2) 2].
+
+Lemma C20_fib_replay_eq_ecmp_of_best_legacy_refuted :
+  exists (c : cfg) (ops : list op) (p : prefix),
+    let s := fst (run c Legacy st0 ops) in
+    fib_replay (snd (run c Legacy st0 ops)) (None, p) <> fib_spec c (s_fl s) (d_l (s_get s p)).
+Proof. exists ex_cfg, ex_ops_tied, (0, 1). vm_compute. discriminate. Qed.
+
+Example ex_tied_fixed :
+  let s := fst (run ex_cfg Fixed st0 ex_ops_tied) in
+  fib_replay (snd (run ex_cfg Fixed st0 ex_ops_tied)) (None, (0, 1)) = [1; 2] /\
+  fib_spec ex_cfg (s_fl s) (d_l (s_get s (0, 1))) = [1; 2].
+Proof. vm_compute. auto. Qed.
+
+(* C20-2: the new best path of a VPN prefix is not importable into a VRF that
+   holds the previous one: nothing is sent to that VRF *)
+Definition ex_ops_vrf : list op :=
+  [Insert 1 0 (1, 1) 0 (Some 1) 0; Insert 2 0 (1, 1) 0 (Some 2) 1].
+
+Lemma C20_vrf_fib_replay_eq_ecmp_of_best_legacy_refuted :
+  exists (c : cfg) (ops : list op) (i id : N) (imp : list N),
+    NoDup (map fst (c_vrfs c)) /\ In (id, imp) (c_vrfs c) /\ id <> 0 /\
+    let s := fst (run c Legacy st0 ops) in
+    let l := d_l (s_get s (1, i)) in
+    fib_replay (snd (run c Legacy st0 ops)) (Some id, (2, i)) <>
+    vrf_spec c (s_fl s) imp l (hd_error (selectable l)).
+Proof.
+  exists ex_cfg, ex_ops_vrf, 1, 5, [1]. split; [|split; [|split]].
+  - cbn. repeat constructor; cbn; intuition discriminate.
+  - cbn. auto.
+  - discriminate.
+  - vm_compute. discriminate.
+Qed.
+
+Example ex_vrf_fixed :
+  let s := fst (run ex_cfg Fixed st0 ex_ops_vrf) in
+  let l := d_l (s_get s (1, 1)) in
+  fib_replay (snd (run ex_cfg Fixed st0 ex_ops_vrf)) (Some 5, (2, 1)) = [] /\
+  fib_replay (snd (run ex_cfg Fixed st0 ex_ops_vrf)) (Some 6, (2, 1)) = [2] /\
+  vrf_spec ex_cfg (s_fl s) [2] l (hd_error (selectable l)) = [2].
+Proof. vm_compute. auto. Qed.
+
+(* non-vacuity of the hypotheses and of the interesting branches *)
+Definition ex_ops_long : list op :=
+  [Insert 1 0 (0, 1) 0 (Some 1) 0; Insert 2 0 (0, 1) 0 (Some 2) 2; Insert 3 0 (0, 1) 1 (Some 1) 0;
+   NhValidity 2 false; MarkStale 1; Insert 1 1 (0, 1) 0 (Some 3) 0; DropStale 1;
+   SetPolicy 2; SoftResetIn 2; NhValidity 2 true; Remove 3 0 (0, 1) 1].
+
+Example ex_wf : forallb wf_op ex_ops_long = true.
+Proof. reflexivity. Qed.
+
+Example ex_long_values :
+  let s := fst (run ex_cfg Fixed st0 ex_ops_long) in
+  let reqs := snd (run ex_cfg Fixed st0 ex_ops_long) in
+  fib_replay reqs (None, (0, 1)) = [3; 3] /\
+  ref_replay reqs 3 = 2 /\ paths_using s 3 = 2 /\ ref_replay reqs 1 = 0 /\
+  unreachable_after ex_ops_long 2 false = false.
+Proof. vm_compute. auto. Qed.
+
+Example ex_unreachable :
+  let ops := [Insert 1 0 (0, 1) 0 (Some 1) 0; Insert 2 0 (0, 1) 0 (Some 2) 2; NhValidity 2 false] in
+  let s := fst (run ex_cfg Fixed st0 ops) in
+  unreachable_after ops 2 false = true /\
+  length (d_l (s_get s (0, 1))) = 2%nat /\ length (selectable (d_l (s_get s (0, 1)))) = 1%nat /\
+  fib_replay (snd (run ex_cfg Fixed st0 ops)) (None, (0, 1)) = [1].
+Proof. vm_compute. auto. Qed.
+
+Example ex_vrf_hyps : NoDup (map fst (c_vrfs ex_cfg)) /\ In (5, [1]) (c_vrfs ex_cfg).
+Proof. split. cbn. repeat constructor; cbn; intuition discriminate. cbn. auto. Qed.
+
